@@ -18,6 +18,7 @@ TECHNIQUE = 'runtime monitor on plan_query with unique marker constants per WHER
 RULE = ('queries = table(-table) JOIN model [JOIN table] with 0-4 WHERE conjuncts of kinds {model-eq, table-cmp, table-in, model-gt, not-model-eq, '
         'not-table, or-mix, func-wrapped, cross, nested-and} in random order, USING options, ON conditions; x catalog forms; non-trivial = >= 1 '
         'conjunct; distinct by (conjunct kinds, shape, catalog form)')
+RULE += '; also: constant-first comparisons, OR in ON, input columns named like fragments of the target, every join spelling (pushes under right / full joins judged)'
 ASSUMPTIONS = ['equalities on the model\'s target column (to_predict) are treated specially by the planner and are not generated',
                'an alias-prefixed USING option whose prefix is not the model alias belongs to another object and may be dropped']
 BUDGET = {'quick': (8, 240), 'thorough': (16, 1800)}
